@@ -74,14 +74,16 @@ where
                     };
                     acc
                 });
-        // Choose the group with the most members
-        if let Some((k, v)) = groups.iter().max_by_key(|c| c.1) {
-            if v > &1 {
-                // Found prefix is only useful if the group contains more than one member
-                k.to_vec()
-            } else {
-                vec![]
-            }
+        // Choose the group with the most members. If several groups have the same number of
+        // members the one that occurs first wins, independent of the hash map's iteration order.
+        let max_members = groups.values().copied().max().unwrap_or(0);
+        if max_members > 1 {
+            // Found prefix is only useful if the group contains more than one member
+            candidates_with_len_n
+                .iter()
+                .find(|c| groups.get(*c) == Some(&max_members))
+                .map(|k| k.to_vec())
+                .unwrap_or_default()
         } else {
             vec![]
         }
